@@ -3,8 +3,7 @@
 patch=$1; shift; id=$1; shift
 cd /repo || exit 3
 if [ -n "$(git status --porcelain)" ]; then echo "repo not clean"; exit 3; fi
-git apply --3way "$patch" 2>/tmp/seedtest.err || git apply "$patch" || { echo "patch does not apply"; cat /tmp/seedtest.err; git checkout -- .; exit 3; }
-git reset -q
+git apply "$patch" 2>/tmp/seedtest.err || { echo "patch does not apply"; cat /tmp/seedtest.err; git reset -q --hard HEAD; exit 3; }
 cd /verif && ./check "$id" "$@" > /tmp/seedtest.$id.out 2>&1; rc=$?
 grep -E "^(VIOLATION|KNOWN-FINDING|OK|INCONCLUSIVE)" /tmp/seedtest.$id.out | head -5
 # drop replays created by the seeded run
